@@ -24,7 +24,7 @@ RULE = (
     "(version, flags, names, classes and serialize_handlers by item assignment, deletion, update, add). Non-trivial = history containing both 1.0- "
     "and 2.0-style requests, or a concurrent history with a preemption inside a dispatch; distinct by hash of the case (+ schedule choices)."
 )
-EXHAUSTIVE = ["all schedules with a single preemption at the first occurrence (thorough: first three) of every distinct traced source line, for the 8 workloads of sub-check 'sweep'"]
+EXHAUSTIVE = ["all schedules with a single preemption at the first occurrence (thorough: first three) of every distinct traced source line, for the 10 workloads of sub-check 'sweep'"]
 ASSUMPTIONS = [
     "R2: the form rule is asserted for structurally valid entries; statelessness is asserted for all bodies",
     "registered callables are deterministic functions of their arguments",
@@ -64,9 +64,24 @@ def has_both_styles(texts):
     return v1 and v2
 
 
+BEANS = [{"__jsonclass__": ["decimal.Decimal", ["1.5"]]}, {"__jsonclass__": ["fractions.Fraction", [1, 3]]},
+         {"__jsonclass__": ["collections.OrderedDict", []]}, {"__jsonclass__": ["no_such_module_vf.K", []]}]
+
+
+@st.composite
+def bean_requests(draw):
+    """Requests whose params carry descriptors of side-effect-free classes"""
+    bean = draw(st.sampled_from(BEANS))
+    pairs = [["id", draw(st.integers(1, 9))], ["method", draw(st.sampled_from(["echo", "kw", "zero"]))],
+             ["params", draw(st.sampled_from([[bean], [[bean, 1]], {"a": bean}]))]]
+    if draw(st.booleans()):
+        pairs.insert(0, ["jsonrpc", "2.0"])
+    return ("single", ("obj", pairs))
+
+
 @st.composite
 def histories(draw, max_len=12):
-    bodies = draw(st.lists(st.one_of(reqgen.bodies(max_batch=4), reqgen.bodies(max_batch=4), reqgen.damaged_texts()), min_size=1, max_size=max_len))
+    bodies = draw(st.lists(st.one_of(reqgen.bodies(max_batch=4), reqgen.bodies(max_batch=4), reqgen.damaged_texts(), bean_requests()), min_size=1, max_size=max_len))
     return {"bodies": bodies, "version": draw(st.sampled_from([1.0, 2.0])), "jsonclass": draw(st.booleans()),
             "mode": draw(st.sampled_from(dc.MODES))}
 
@@ -102,6 +117,8 @@ def oracle_sequential(case):
             exp_model = refmodel.model(text, case["version"], refmodel.Registry(jsonclass=case["jsonclass"]), case["mode"])
         except Exception:
             exp_model = None   # outside the domain (R12): statelessness still applies
+        if "__jsonclass__" in text:
+            exp_model = None   # the reference model does not translate classes; statelessness and snapshots still apply
         if exp_model is not None:
             refmodel.raise_mine(refmodel.compare(out, exp_model), ("C13",))
         want = fresh_reply(text, case)
@@ -242,6 +259,8 @@ SWEEP_WORKLOADS = [
     ([[_call("boom", "a6", v2=False)], [_call("echo", "b6")]], 2.0, "instance"),
     ([[_call("echo", "a7", v2=False)], [_call("echo", "b7", v2=False)]], 1.0, "funcs"),
     ([[("batch", [_call("echo", "a8", v2=False)[1], _call("echo", "a8b")[1]])], [_call("two", "b8", params=[1, 2])]], 2.0, "funcs"),
+    ([[_call("fault", "a9")], [_call("fault", "b9")]], 2.0, "custom"),
+    ([[_call("fault", "a10", v2=False)], [_call("fault", "b10")]], 2.0, "instance"),
 ]
 
 
